@@ -54,7 +54,39 @@ structure Q2 (c : Cfg α) (s : St α) : Prop where
   dsynced : s.fs.dirSynced = true → SubPat [isFsyncDirOk, isFsyncDstOk, isFutimens] s.trace = true
   attrs : s.pc.isCloseD = true → s.success = true → SubPat [isFutimens] s.trace = true
   closed : s.success = true → s.fs.ownLinked = true → s.destOpen = false → SubPat (pat3 c) s.trace = true
-  srcUnl : (∃ e ∈ s.trace, e.call = .unlink .src) → s.pc = .done ∧ SubPat (isUnlinkSrc :: pat3 c) s.trace = true
+  srcUnl : (∃ e ∈ s.trace, e.call = .unlink .src) →
+    s.pc = .done ∧ s.success = true ∧ c.o.keepEff = false ∧ c.o.stdin = false ∧ SubPat (isUnlinkSrc :: pat3 c) s.trace = true
+
+/-- General step lemma: one call (not `unlink source`) is recorded from a pc other than `done`; whatever becomes newly
+    true (a sync flag, "closed successfully", stopping at fsyncFile / closeDir / closeDest) comes with its pattern. -/
+theorem q2_gen {c : Cfg α} {s s' : St α} (q : Q2 c s) (hpc : s.pc ≠ .done) (ev : Event)
+    (ht : s'.trace = ev :: s.trace) (hev : ev.call ≠ .unlink .src)
+    (hof : s'.fs.ownLinked = true → c.o.destStdout = false ∧ c.o.mode ≠ .test)
+    (hpo : s'.main = false → s'.fs.ownLinked = false)
+    (hos : s'.fs.ownSynced = true → s.fs.ownSynced = true ∨ SubPat [isFsyncDstOk, isFutimens] s'.trace = true)
+    (hds : s'.fs.dirSynced = true → s.fs.dirSynced = true ∨ SubPat [isFsyncDirOk, isFsyncDstOk, isFutimens] s'.trace = true)
+    (hfs : s'.pc = .fsyncFile → SubPat [isFutimens] s'.trace = true)
+    (hcd : s'.pc.isCloseD = true → s'.success = true → SubPat [isFutimens] s'.trace = true)
+    (hcl : s'.success = true → s'.fs.ownLinked = true → s'.destOpen = false →
+      (s.success = true ∧ s.fs.ownLinked = true ∧ s.destOpen = false) ∨ SubPat (pat3 c) s'.trace = true) : Q2 c s' := by
+  refine ⟨hof, hpo, ?_, hfs, ?_, hcd, ?_, ?_⟩
+  · intro h
+    rcases hos h with h | h
+    · rw [ht]; exact subPat_cons _ (q.synced h)
+    · exact h
+  · intro h
+    rcases hds h with h | h
+    · rw [ht]; exact subPat_cons _ (q.dsynced h)
+    · exact h
+  · intro h1 h2 h3
+    rcases hcl h1 h2 h3 with h | h
+    · rw [ht]; exact subPat_cons _ (q.closed h.1 h.2.1 h.2.2)
+    · exact h
+  · rintro ⟨e, he, hc⟩
+    rw [ht] at he
+    rcases List.mem_cons.mp he with rfl | he
+    · exact absurd hc hev
+    · exact absurd (q.srcUnl ⟨e, he, hc⟩).1 hpc
 
 /-- a step from a program counter other than `done` that records one call (not `unlink source`), creates no target,
     sets no sync flag, and does not newly reach "closed successfully" -/
@@ -65,21 +97,48 @@ theorem q2_neutral {c : Cfg α} {s s' : St α} (q : Q2 c s) (hpc : s.pc ≠ .don
     (hfs : s'.pc ≠ .fsyncFile) (hcd : s'.pc.isCloseD = true → s'.success = true → SubPat [isFutimens] s.trace = true)
     (hcl : s'.success = true → s'.fs.ownLinked = true → s'.destOpen = false →
       s.success = true ∧ s.destOpen = false) : Q2 c s' := by
-  refine ⟨fun h => q.ownFile (hol h), ?_, ?_, fun h => absurd h hfs, ?_, ?_, ?_, ?_⟩
-  · intro h
-    cases ho : s'.fs.ownLinked with
-    | false => rfl
-    | true => have := q.preOwn (hmain h); rw [hol ho] at this; exact absurd this (by simp)
-  · intro h; rw [ht]; exact subPat_cons _ (q.synced (hos h))
-  · intro h; rw [ht]; exact subPat_cons _ (q.dsynced (hds h))
-  · intro h1 h2; rw [ht]; exact subPat_cons _ (hcd h1 h2)
+  refine q2_gen q hpc ev ht hev (fun h => q.ownFile (hol h)) ?_ (fun h => Or.inl (hos h)) (fun h => Or.inl (hds h))
+    (fun h => absurd h hfs) (fun h1 h2 => by rw [ht]; exact subPat_cons _ (hcd h1 h2))
+    (fun h1 h2 h3 => Or.inl ⟨(hcl h1 h2 h3).1, hol h2, (hcl h1 h2 h3).2⟩)
+  intro h
+  cases ho : s'.fs.ownLinked with
+  | false => rfl
+  | true => have := q.preOwn (hmain h); rw [hol ho] at this; exact absurd this (by simp)
+
+/-- `q2_neutral` for a step that ends in a dispatcher: `s1` is the state handed to the dispatcher -/
+theorem q2_via {c : Cfg α} {s s1 s' : St α} (q : Q2 c s) (hpc : s.pc ≠ .done) (fr : Frame s1 s') {ev : Event}
+    (ht : s1.trace = ev :: s.trace) (hev : ev.call ≠ .unlink .src) (hfs : s1.fs = s.fs) (hm : s1.main = s.main)
+    (hfsync : s'.pc ≠ .fsyncFile)
+    (hcd : s'.pc.isCloseD = true → s'.success = true → SubPat [isFutimens] s.trace = true)
+    (hcl : s'.success = true → s.fs.ownLinked = true → s1.destOpen = false → s.success = true ∧ s.destOpen = false) :
+    Q2 c s' := by
+  refine q2_neutral q hpc ev (fr.trace.trans ht) hev ?_ ?_ ?_ ?_ hfsync hcd ?_
+  · rw [fr.fs, hfs]; exact id
+  · intro h; rw [← hm]; exact fr.mainMono h
+  · rw [fr.fs, hfs]; exact id
+  · rw [fr.fs, hfs]; exact id
   · intro h1 h2 h3
-    have := hcl h1 h2 h3
-    rw [ht]; exact subPat_cons _ (q.closed this.1 (hol h2) this.2)
-  · rintro ⟨e, he, hc⟩
-    rw [ht] at he
-    rcases List.mem_cons.mp he with rfl | he
-    · exact absurd hc hev
-    · exact absurd (q.srcUnl ⟨e, he, hc⟩).1 hpc
+    rw [fr.fs, hfs] at h2
+    rw [fr.destOpen] at h3
+    exact hcl h1 h2 h3
+
+/-- dispatcher result that certainly has `success = false` -/
+theorem q2_via_fail {c : Cfg α} {s s1 s' : St α} (q : Q2 c s) (hpc : s.pc ≠ .done) (fr : Frame s1 s') {ev : Event}
+    (ht : s1.trace = ev :: s.trace) (hev : ev.call ≠ .unlink .src) (hfs : s1.fs = s.fs) (hm : s1.main = s.main)
+    (hfsync : s'.pc ≠ .fsyncFile) (hs : s'.success = false) : Q2 c s' :=
+  q2_via q hpc fr ht hev hfs hm hfsync (fun _ h => by rw [hs] at h; simp at h) (fun h => by rw [hs] at h; simp at h)
+
+theorem unlinkDstName_ownLinked_mono (fs : FS α) : fs.unlinkDstName.ownLinked = true → fs.ownLinked = true := by
+  unfold FS.unlinkDstName FS.unlinkIno; repeat' split
+  all_goals simp
+theorem unlinkDstName_ownSynced (fs : FS α) : fs.unlinkDstName.ownSynced = fs.ownSynced := by
+  unfold FS.unlinkDstName FS.unlinkIno; repeat' split
+  all_goals rfl
+theorem unlinkDstName_dirSynced (fs : FS α) : fs.unlinkDstName.dirSynced = fs.dirSynced := by
+  unfold FS.unlinkDstName FS.unlinkIno; repeat' split
+  all_goals rfl
+theorem appendData_ownSynced_mono (c : Cfg α) (s : St α) (d : List α) :
+    (appendData c s d).fs.ownSynced = true → s.fs.ownSynced = true := by
+  unfold appendData; split <;> simp
 
 end XzVerif.XzIo
